@@ -144,3 +144,16 @@ Definition client_send_events (k : key) (id : N) (during after : list msg) : lis
   if tsx_client_registers_before_send
   then ClientStart k id :: map Recv during ++ map Recv after
   else map Recv during ++ ClientStart k id :: map Recv after.
+
+
+(* InviteLayer.cancellables (sip-ua/src/invite): the pending INVITE is registered under (CSeq number, TsxKey::branch() of the
+   INVITE) and a CANCEL is looked up under (its CSeq number, its branch) - TsxKey::branch() is the Via branch for an RFC 3261 key
+   and empty for an RFC 2543 key.  [cancel_lookup_by_tsx_branch] (Gen.Tables) says whether the lookup uses TsxKey::branch() too. *)
+Definition key_branch (k : key) : bytes := match k with K3261 _ b _ => b | K2543 _ _ _ _ _ _ => [] end.
+Definition cancellable_reg (inv : msg) : option (N * bytes) :=
+  match key_of inv with Some k => Some (m_cseq inv, key_branch k) | None => None end.
+Definition cancellable_lookup (c : msg) : option (N * bytes) :=
+  match key_of c with
+  | Some k => Some (m_cseq c, if cancel_lookup_by_tsx_branch then key_branch k else m_branch c)
+  | None => None
+  end.
